@@ -85,3 +85,27 @@ def passes_param(fn, call, pname, accept_self_attr=True):
         if accept_self_attr and is_self_attr(a) and a.attr in (pname, "_" + pname):
             return True
     return False
+
+
+def expand_flow(fn, node, depth=8):
+    """Like expand(), but flow-aware for straight-line code: a Name is replaced by the nearest assignment to it that
+    lexically precedes the use (so `p = join(a, b); p = abspath(p)` resolves the later use to abspath(join(a, b))).
+    Parameters and names without a preceding plain assignment are kept."""
+    import copy
+    assigns = [n for n in walk_shallow(fn) if isinstance(n, ast.Assign) and len(n.targets) == 1 and isinstance(n.targets[0], ast.Name)]
+
+    def pos(n):
+        return (getattr(n, "lineno", 0), getattr(n, "col_offset", 0))
+
+    def sub(e, before, d):
+        class T(ast.NodeTransformer):
+            def visit_Name(self, nm):
+                if d <= 0 or not isinstance(nm.ctx, ast.Load):
+                    return nm
+                prev = [a for a in assigns if a.targets[0].id == nm.id and pos(a) < before]
+                if not prev:
+                    return nm
+                a = max(prev, key=pos)
+                return sub(copy.deepcopy(a.value), pos(a), d - 1)
+        return T().visit(e)
+    return sub(copy.deepcopy(node), pos(node), depth)
